@@ -10,7 +10,7 @@ Three kinds of TLC run (DESIGN.md 2.4, C10):
         deterministic output for the recorded configuration (CodeView: DRIFT).
 """
 import os, re, json
-import vlib, games
+import vlib, games, nodes
 from vlib import ToolError
 
 ACTIONS = ["BBestYield", "BBestNone", "BGenCaps", "BGoodYield", "BGoodPark", "BGoodParkLoud", "BGoodExh",
@@ -229,6 +229,9 @@ def main():
     missing = [e for e in EDGES if e not in edges]
     if missing and not q:
         raise ToolError("model branches never exercised by a real picker run (thorough tier must reach all): %s" % missing)
+    # node level (hook H6, Trace_Nodes.tla): every step of every node of recorded searches replayed on a stack of
+    # rule-book positions; this check reports the clauses filed under its own property
+    nstat = nodes.standard(chk, ("C10",), scale=0.5)
     chk.cov.update({
         "traces_validated_against_impl": tot["runs"],
         "trace_files": len(tfiles),
